@@ -154,6 +154,24 @@ def r08_2_user_code(ctx, rid='R08.2'):
         for c in dyn:
             if not g.live(c):
                 continue
+            # a local that only ever holds yatiml's own functions / bound methods (a dispatch through a variable) is not user code
+            if c.func.id not in params:
+                ds = reaching_defs(g, c, c.func.id)
+
+                def own(e):
+                    if isinstance(e, ast.Constant) and e.value is None:
+                        return True
+                    if isinstance(e, ast.Attribute) and isinstance(e.value, ast.Name) and e.value.id in ('self', 'cls') and fi.cls is not None:
+                        m_ = P.lookup_method(fi.cls, e.attr)
+                        return m_ is not None and m_.module.name.startswith('yatiml')
+                    if isinstance(e, ast.Name):
+                        rr = P.resolve_expr(fi.module, e, fi)
+                        return isinstance(rr, FunctionInfo) and rr.module.name.startswith('yatiml')
+                    if isinstance(e, ast.IfExp):
+                        return own(e.body) and own(e.orelse)
+                    return False
+                if ds and all(isinstance(d, (ast.Assign, ast.AnnAssign)) and d.value is not None and own(d.value) for d in ds):
+                    continue
             h = S.handler_for(g, c, {'Exception', 'BaseException'})
             ok = h is not None and S.handler_converts(g, h)[0]
             r.check(ok, '%s: call of the value %s under a converting `except Exception`' % (fi.qual, c.func.id),
